@@ -466,3 +466,114 @@ package cmd
 //@   check notexist: ispathne(callret(globFilesLocal, 1)) ==> result0 == nil
 //@ loop (*app).handleFiles#0
 //@   invariant bounds: 0 <= iter && iter <= len(items)
+
+//@ spec timesUpTo(pl PointsList, now int) bool = forall k :: 0 <= k && k < len(pl) ==> forall j :: 0 <= j && j < len(pl[k]) ==> pl[k][j].Time <= now
+//@ spec separate(pl PointsList) bool = forall a :: 0 <= a && a < len(pl) ==> forall b :: 0 <= b && b < len(pl) && a != b && len(pl[a]) > 0 && len(pl[b]) > 0 ==> pl[a].arr != pl[b].arr
+
+//@ func updateFileDataWithPointsList
+//@   props C08 C11 C20 C05 C16
+//@   requires handleOK(db) && now != 0 && clockOK(db, now) && len(pointsList) >= len(db.header.archiveInfoList)
+//@   requires timesUpTo(pointsList, now) && separate(pointsList)
+//@   modifies rows(Point), fb(db.fileBuf)
+//@   ensures kind: result == nil || isio(result)
+//@   ensures header_untouched: forall b :: b < 16 + 12 * len(db.header.archiveInfoList) ==> fbyte(db.fileBuf, b) == old(fbyte(db.fileBuf, b))
+//@ loop updateFileDataWithPointsList#0
+//@   invariant bounds: 0 <= archiveID && archiveID <= len(db.header.archiveInfoList)
+//@   invariant lists: pointsList === entry(pointsList) && (forall k :: 0 <= k && k < len(pointsList) ==> pointsList[k] === old(pointsList[k]))
+//@   invariant rest: forall k :: archiveID <= k && k < len(pointsList) ==> forall j :: 0 <= j && j < len(pointsList[k]) ==> pointsList[k][j].Time <= now
+//@   invariant header_untouched: forall b :: b < 16 + 12 * len(db.header.archiveInfoList) ==> fbyte(db.fileBuf, b) == old(fbyte(db.fileBuf, b))
+
+//@ spec diffOfX(a *TimeSeries, b *TimeSeries, p Points, q Points) bool =
+//@        ((a == nil || b == nil) && tsLen(a) == tsLen(b) ==> len(p) == 0 && len(q) == 0)
+//@        && (tsLen(a) != tsLen(b) ==> len(p) == tsLen(a) && len(q) == tsLen(b))
+//@        && (a != nil && b != nil && len(a.values) == len(b.values) ==> len(p) == tsDiffCntX(a, b, len(a.values)) && len(q) == len(p)
+//@            && (forall i :: 0 <= i && i < len(a.values) && tsDiffersX(a, b, i) ==> 0 <= tsDiffCntX(a, b, i) && tsDiffCntX(a, b, i) < len(p)
+//@                && p[tsDiffCntX(a, b, i)].Time == tsTime(a.fromTime, i, a.step)))
+
+//@ func (TimeSeriesList).DiffExcludeSrcNaN
+//@   props C08
+//@   ensures lens: len(result0) == len(tl) && len(result1) == len(ul)
+//@   ensures each: len(tl) == len(ul) ==> forall k :: 0 <= k && k < len(tl) ==> diffOfX(tl[k], ul[k], result0[k], result1[k])
+//@ loop (TimeSeriesList).DiffExcludeSrcNaN#0
+//@   invariant bounds: 0 <= i && i <= len(tl) && len(tl) == len(ul) && len(pl2) == len(tl) && len(ql2) == len(ul) && pl2.arr > old(top) && ql2.arr > old(top) && pl2.arr != ql2.arr
+//@   invariant each: forall k :: 0 <= k && k < i ==> diffOfX(tl[k], ul[k], pl2[k], ql2[k])
+
+//@ spec pairCleanX(a *TimeSeries, b *TimeSeries) bool = tsLen(a) == tsLen(b) && (a == nil || b == nil || tsDiffCntX(a, b, len(a.values)) == 0)
+
+//@ func (*CopyCommand).copyOneFile
+//@   props C08 C16 C05
+//@   requires c != nil
+//@   assume now != 0 && now - c.From <= 2147483647 at until
+//@   assume clockOK(db, now) before fetchTimeSeriesList
+//@   assume clockOK(db, now) && timesUpTo(pointsList, now) && separate(pointsList) before updateFileDataWithPointsList
+//@   modifies ghost(nopen, 0), ghost(nlocked, 0), rows(Point), c.ArchiveInfoList[0:len(c.ArchiveInfoList)]
+//@   check[C08] layout_checked: result0 == nil ==> srcHeader != nil && destHeader != nil && sameLayout(srcHeader.archiveInfoList, destHeader.archiveInfoList)
+//@                 && len(srcTsList) == len(destTsList) && (forall k :: 0 <= k && k < len(srcTsList) ==> sameShape(srcTsList[k], destTsList[k]))
+//@   check[C08] mismatch_no_write: srcHeader != nil && destHeader != nil && !sameLayout(srcHeader.archiveInfoList, destHeader.archiveInfoList)
+//@                 ==> result0 != nil && !called(updateFileDataWithPointsList) && !called("(*Whisper).Sync")
+//@   check[C08] nothing_to_copy: result0 == nil && !called(updateFileDataWithPointsList) && c.CopyNaN
+//@                 ==> forall k :: 0 <= k && k < len(srcTsList) ==> pairClean(srcTsList[k], destTsList[k])
+//@   check[C08] nothing_to_copy_x: result0 == nil && !called(updateFileDataWithPointsList) && !c.CopyNaN
+//@                 ==> forall k :: 0 <= k && k < len(srcTsList) ==> pairCleanX(srcTsList[k], destTsList[k])
+//@   assert[C08] writes_the_difference: db == destDB && len(pointsList) == len(srcTsList) && len(srcTsList) == len(destTsList)
+//@                 && (c.CopyNaN ==> forall k :: 0 <= k && k < len(srcTsList) ==> diffOf(srcTsList[k], destTsList[k], pointsList[k], destPlDif[k]))
+//@                 && (!c.CopyNaN ==> forall k :: 0 <= k && k < len(srcTsList) ==> diffOfX(srcTsList[k], destTsList[k], pointsList[k], destPlDif[k])) before updateFileDataWithPointsList
+//@   check[C08,C05] synced: result0 == nil && called(updateFileDataWithPointsList) ==> called("(*Whisper).Sync") && callret("(*Whisper).Sync", 0) == nil && callret(updateFileDataWithPointsList, 0) == nil
+
+// NOTE: unlike diffOneFile, sumDiffItem does not compare the windows of the two series lists before Diff; printDiff's
+// precondition (the destination list is at least as long as the sum's) therefore rests on both sides having been fetched
+// with the same window from equal layouts (C04: the shape of a fetch does not depend on stored bytes): assumed below.
+//@ func (*SumDiffCommand).sumDiffItem
+//@   props C11 C16 C09
+//@   requires c != nil
+//@   assume now != 0 && now - c.From <= 2147483647 at until
+//@   assume diffListsOK(len(srcHeader.archiveInfoList), srcPlDif, destPlDif) before printDiff
+//@   modifies ghost(nopen, 0), ghost(nlocked, 0)
+//@   ensures no_leak: ghost(nopen, 0) == old(ghost(nopen, 0)) && ghost(nlocked, 0) == old(ghost(nlocked, 0))
+//@   check[C16] missing: (sumHeader == nil || destHeader == nil) ==> result0 != nil
+//@   check[C11] found: result0 == ErrDiffFound && sumHeader != nil && destHeader != nil
+//@                 ==> !(forall k :: 0 <= k && k < len(sumTsList) ==> pairClean(sumTsList[k], destTsList[k]))
+//@   check[C11] clean: result0 == nil ==> sumHeader != nil && destHeader != nil && sameLayout(sumHeader.archiveInfoList, destHeader.archiveInfoList)
+//@                 && len(sumTsList) == len(destTsList) && (forall k :: 0 <= k && k < len(sumTsList) ==> seriesEqual(sumTsList[k], destTsList[k]))
+
+//@ func (*SumCopyCommand).sumCopyItem
+//@   props C11 C16 C05
+//@   requires c != nil
+//@   assume now != 0 && now - c.From <= 2147483647 at until
+//@   assume clockOK(db, now) before fetchTimeSeriesList
+//@   assume clockOK(db, now) && timesUpTo(pointsList, now) && separate(pointsList) before updateFileDataWithPointsList
+//@   modifies ghost(nopen, 0), ghost(nlocked, 0), rows(Point), c.ArchiveInfoList[0:len(c.ArchiveInfoList)]
+//@   check[C11] layout_checked: result0 == nil ==> srcHeader != nil && destHeader != nil && sameLayout(srcHeader.archiveInfoList, destHeader.archiveInfoList)
+//@                 && len(srcTsList) == len(destTsList) && (forall k :: 0 <= k && k < len(srcTsList) ==> sameShape(srcTsList[k], destTsList[k]))
+//@   check[C11] mismatch_no_write: srcHeader != nil && destHeader != nil && !sameLayout(srcHeader.archiveInfoList, destHeader.archiveInfoList)
+//@                 ==> result0 != nil && !called(updateFileDataWithPointsList) && !called("(*Whisper).Sync")
+//@   check[C11] nothing_to_copy: result0 == nil && !called(updateFileDataWithPointsList)
+//@                 ==> forall k :: 0 <= k && k < len(srcTsList) ==> pairClean(srcTsList[k], destTsList[k])
+//@   assert[C11] writes_the_difference: db == destDB && len(pointsList) == len(srcTsList) && len(srcTsList) == len(destTsList)
+//@                 && (forall k :: 0 <= k && k < len(srcTsList) ==> diffOf(srcTsList[k], destTsList[k], pointsList[k], destPlDif[k])) before updateFileDataWithPointsList
+//@   check[C11,C05] synced: result0 == nil && called(updateFileDataWithPointsList) ==> called("(*Whisper).Sync") && callret("(*Whisper).Sync", 0) == nil && callret(updateFileDataWithPointsList, 0) == nil
+
+//@ func (*CopyCommand).execute
+//@   props C08 C16
+//@   requires c != nil
+//@   modifies ghost(nopen, 0), ghost(nlocked, 0), rows(Point), c.ArchiveInfoList[0:len(c.ArchiveInfoList)]
+//@   ensures any: true
+//@ loop (*CopyCommand).execute#0
+//@   invariant bounds: 0 <= iter && iter <= len(filenames)
+
+//@ func (*SumCopyCommand).execute
+//@   props C11 C16
+//@   requires c != nil
+//@   modifies ghost(nopen, 0), ghost(nlocked, 0), rows(Point), c.ArchiveInfoList[0:len(c.ArchiveInfoList)]
+//@   ensures any: true
+//@ loop (*SumCopyCommand).execute#0
+//@   invariant bounds: 0 <= iter && iter <= len(items)
+
+//@ func (*SumDiffCommand).execute
+//@   props C11 C16
+//@   requires c != nil
+//@   modifies ghost(nopen, 0), ghost(nlocked, 0)
+//@   ensures no_leak: ghost(nopen, 0) == old(ghost(nopen, 0)) && ghost(nlocked, 0) == old(ghost(nlocked, 0))
+//@ loop (*SumDiffCommand).execute#0
+//@   invariant bounds: 0 <= iter && iter <= len(items)
+//@   invariant leak: ghost(nopen, 0) == old(ghost(nopen, 0)) && ghost(nlocked, 0) == old(ghost(nlocked, 0))
